@@ -398,3 +398,20 @@ PROPS['C04']['assumptions'] = PROPS['C04']['assumptions'] + M_ASSUME[:2]
 PROPS['C01']['outside'] = 'the six-block window is C19; real decryption (ideal-cipher stub); multi-breach blocks beyond one locator with two appointments; SQL; get_breaches with more than 2 transactions per block'
 
 M('C10', 'M2.double_charge', 'double_charge', 'no interleaving of two add_appointment requests for the same appointment lets both read "not stored yet" (get_appointment_length) before either has stored it: charged once (charge and store are one critical section under the locator cache lock)')
+K('C11', 'K1.reorged_tracker_purged', 'teos', _r + 'c11_reorged_tracker_purged', 'handle_reorged_txs with a reorged uuid whose tracker row is gone (owner purged earlier in the same block): skipped without panic, nothing sent or reported (F13 regression)')
+K('C04', 'P3.reorged_tracker_purged', 'teos', _r + 'c11_reorged_tracker_purged', 'reorg handling survives trackers deleted by a purge', 'thorough')
+
+# ----------------------------------------------------------------------------------------------- C13 (Engine M, partial)
+PROPS['C13'] = {
+    'level': 'model_checking',
+    'technique': 'Engine M path queries on the MIR of Retrier::run, RetryManager::manage_retry and Retrier::start (watchtower_plugin library), decided by z3/cvc5',
+    'bounds': 'all CFG paths of the three lowered functions, loops unrolled twice; one arbitrary pending locator per run',
+    'outside': 'everything about *time*: delivery within the configured delays, the exponential back-off schedule itself (backoff crate), auto-retry delay, tokio task scheduling, client restarts; '
+               'manual retry (retrytower) gating; status truthfulness in listtowers. Only the three structural clauses below are claimed.',
+    'assumptions': PLUGIN_ASSUME,
+    'models': [],
+    'obligations': [],
+}
+M('C13', 'M1.no_spin', 'retry_progress', 'inside Retrier::run every answered appointment either leaves the in-memory pending set or ends the run (so that the back-off strategy decides when to try again): no immediate re-send without progress', part='no_spin')
+M('C13', 'M2.single_loop', 'retry_progress', 'manage_retry starts a retrier only on the true edge of should_start(); Retrier::start marks it Running before spawning the task: never two retry loops for one tower', part='single_loop')
+M('C13', 'M3.errors_keep_pending', 'retrier_run', 'while a tower keeps failing (connection / subscription / unusable reply) the run ends with an error and the pending data is retained', part='errors_keep_pending')
